@@ -712,3 +712,299 @@ func (k *core) enableHelper() *ssa.Function {
 	}
 	return nil
 }
+
+// ---- rules added after the third round of seeded changes ---------------------------------------
+
+// checkMonitorOpsBounded: in the functions the monitor goroutine calls (not its own main select, which has
+// its own rule) every channel operation is non-blocking, except the single answer on a reply channel (an
+// error channel of a value update, the response channel of a verification request), whose room is
+// established by reply-capacity. A bare receive or send on one of the Dials channels there can wedge the
+// monitor for good (and with it every report, Done and enable).
+func (k *core) checkMonitorOpsBounded(rule string) {
+	c := k.c
+	reach := k.cg.reachableFrom(k.monitor, false)
+	n := 0
+	for f := range reach {
+		if f == k.monitor || k.w.pkgRelOfFn(f) != "" {
+			continue
+		}
+		for _, op := range chanOps(f) {
+			if !op.Blocking {
+				continue
+			}
+			n++
+			isReply := op.Send && op.Sel == nil && (isErrorChan(op.Chan.Type()) || strings.Contains(types.TypeString(op.Chan.Type(), nil), "verifyEnableResp"))
+			c.check(isReply, rule, relName(f)+"#"+canon(op.Chan), op.Instr.Pos(), "the only blocking operation is the single answer on a roomy reply channel",
+				"a blocking channel operation on "+canon(op.Chan)+" in a function the monitor goroutine calls: if the other side is not there (a consumer took the parked value, nobody reads) the monitor blocks forever and nothing is installed any more")
+		}
+	}
+	if n == 0 {
+		c.bad(rule, relName(k.monitor), k.monitor.Pos(), "no blocking operation found on the monitor's call paths (the reply sends were expected)")
+	}
+}
+
+// checkAssertsGuarded: on the goroutine roots' call paths a non-comma-ok type assertion panics the process
+// when the operand is nil or of another type. Each one must assert the result of compose under a known-nil
+// compose error (compose returns the address of a fresh T with a nil error), be preceded by a successful
+// comma-ok assertion of the same value, or - in a helper - satisfy that at every call site for the argument.
+func (k *core) checkAssertsGuarded(rule string) {
+	c := k.c
+	reach := k.cg.reachableFrom(k.monitor, false)
+	for f := range k.cg.reachableFrom(k.cbLoop, false) {
+		reach[f] = true
+	}
+	var okAt func(v ssa.Value, at ssa.Instruction, depth int) bool
+	okAt = func(v ssa.Value, at ssa.Instruction, depth int) bool {
+		v = stripConv(v)
+		if depth > 3 {
+			return false
+		}
+		// compose result under composeErr == nil
+		if ex, ok := v.(*ssa.Extract); ok && ex.Index == 0 {
+			if call, ok := ex.Tuple.(*ssa.Call); ok && staticCallee(call) == origin(k.compose) {
+				for _, r := range *call.Referrers() {
+					if e, ok := r.(*ssa.Extract); ok && e.Index == 1 && knownNil(at.Block(), e, true) {
+						return true
+					}
+				}
+				return false
+			}
+		}
+		// a parameter: every call site
+		if p, ok := v.(*ssa.Parameter); ok {
+			f := p.Parent()
+			pi := -1
+			for i, fp := range f.Params {
+				if fp == p {
+					pi = i
+				}
+			}
+			n := 0
+			for _, e := range k.cg.in[origin(f)] {
+				if e.Site == nil {
+					continue
+				}
+				n++
+				if !okAt(e.Site.Common().Args[pi], e.Site.(ssa.Instruction), depth+1) {
+					return false
+				}
+			}
+			return n > 0 && !k.cg.escapes[origin(f)]
+		}
+		return false
+	}
+	n := 0
+	for f := range reach {
+		if k.w.pkgRelOfFn(f) != "" {
+			continue
+		}
+		for _, i := range allInstrs(f) {
+			ta, ok := i.(*ssa.TypeAssert)
+			if !ok || ta.CommaOk {
+				continue
+			}
+			n++
+			c.check(okAt(ta.X, ta, 0), rule, relName(f)+"#"+canon(ta.X), ta.Pos(), "the asserted value is the compose result under a nil compose error (at every call site, for a helper's parameter)",
+				"an unchecked type assertion on "+canon(ta.X)+" runs on a background goroutine where the operand can be nil (e.g. the compose result when stacking failed): the panic kills the process")
+		}
+	}
+	if n == 0 {
+		c.okTrivial(rule, "goroutines", 0, "no unchecked type assertion on the goroutine roots' call paths")
+	}
+}
+
+// checkParamsReadOnly: the behaviour flags of Params are never assigned in the root package (the monitor,
+// the callback loop and EnableVerification read them at different times and must see what the caller set).
+func (k *core) checkParamsReadOnly(rule string) {
+	c := k.c
+	bad := 0
+	for _, f := range k.w.funcsIn("") {
+		for _, i := range allInstrs(f) {
+			st, ok := i.(*ssa.Store)
+			if !ok {
+				continue
+			}
+			fa, ok := st.Addr.(*ssa.FieldAddr)
+			if !ok {
+				continue
+			}
+			if n := namedTypeName(fa.X.Type()); n != ".Params" {
+				continue
+			}
+			fld := fieldName(fa.X.Type(), fa.Field)
+			switch fld {
+			case "DelayInitialVerification", "SkipInitialVerification", "CallGlobalCallbacksAfterVerificationEnabled", "OnNewConfig", "OnWatchedError":
+				bad++
+				c.bad(rule, relName(f)+"#"+fld, st.Pos(), "Params.%s is assigned inside the library: code that reads it later (the monitor's suppression, EnableVerification's fast path) no longer sees what the caller asked for", fld)
+			}
+		}
+	}
+	if bad == 0 {
+		c.ok(rule, "dials", k.config.Pos(), "no assignment to the verification / callback fields of Params in the root package")
+	}
+}
+
+// checkEveryInstallAnnounced: in the monitor the new-config event is submitted exactly when the storing
+// function returned a non-nil config - no further condition (an install that is not announced makes a
+// registered callback skip a version and breaks old == predecessor).
+func (k *core) checkEveryInstallAnnounced(rule string) {
+	c := k.c
+	m := k.monitor
+	n := 0
+	for _, sf := range k.storeFns {
+		for _, ci := range callsToFn(m, sf) {
+			call := ci.(*ssa.Call)
+			for _, i := range allInstrs(m) {
+				al, ok := i.(*ssa.Alloc)
+				if !ok || litTypeName(al) != ".newConfigEvent" {
+					continue
+				}
+				if nc := litField(al, "newConfig"); nc != ssa.Value(call) {
+					continue
+				}
+				// the submit call taking this literal
+				for _, r := range *al.Referrers() {
+					mi, ok := r.(*ssa.MakeInterface)
+					if !ok {
+						continue
+					}
+					for _, rr := range *mi.Referrers() {
+						sub, ok := rr.(*ssa.Call)
+						if !ok {
+							continue
+						}
+						n++
+						pb := &predBuilder{name: func(v ssa.Value) string {
+							if v == ssa.Value(call) {
+								return "newConfig"
+							}
+							return ""
+						}}
+						g := pb.pathCond(call.Block(), sub.Block())
+						// equivalence with `newConfig != nil` for every value of any other atom (conditions that
+						// only compute the event's fields, such as a && inside the literal, cancel out)
+						fb, fi := map[string]bool{}, map[string]bool{}
+						atomsOf(g, fb, fi)
+						rows, counter := forAll(g, nil, func(e env, fv bool) bool { return fv == !e.B["isnil(newConfig)"] })
+						if !fb["isnil(newConfig)"] && counter == "" {
+							counter = "the submit does not depend on the storing function's result"
+						}
+						if counter == "" {
+							c.okRows(rule, relName(m)+"#announce", sub.Pos(), rows, "the event is submitted exactly when newConfig != nil (%d assignments)", rows)
+						} else {
+							c.bad(rule, relName(m)+"#announce", sub.Pos(), "the new-config event is not submitted exactly when the storing function returned a config (an extra condition can skip the announcement of an installed version): %s", counter)
+						}
+					}
+				}
+			}
+		}
+	}
+	if n == 0 {
+		c.bad(rule, relName(m), m.Pos(), "no new-config event built from the storing function's result")
+	}
+}
+
+// checkExitOnFreshScan: the monitor leaves its loop on a Done event only on the strength of a scan of the
+// slots' watching bits made while handling that very event, never on state carried from earlier events
+// (a counter decremented per Done is wrong as soon as one source calls Done twice).
+func (k *core) checkExitOnFreshScan(rule string) {
+	c := k.c
+	m := k.monitor
+	fWatching := k.w.field("", "sourceValue", "watching")
+	if !c.need(fWatching != nil, "dials.sourceValue.watching") {
+		return
+	}
+	readsWatching := func(f *ssa.Function) bool {
+		for _, i := range allInstrs(f) {
+			if fl, ok := i.(*ssa.Field); ok && sameField(fieldVar(fl.X.Type(), fl.Field), fWatching) {
+				return true
+			}
+			if fa, ok := i.(*ssa.FieldAddr); ok && sameField(fieldVar(fa.X.Type(), fa.Field), fWatching) {
+				for _, r := range *fa.Referrers() {
+					if u, ok := r.(*ssa.UnOp); ok && u.Op == token.MUL {
+						return true
+					}
+				}
+			}
+		}
+		return false
+	}
+	// loop header of the monitor
+	var hdr *ssa.BasicBlock
+	for _, b := range m.Blocks {
+		for _, p := range b.Preds {
+			if b.Dominates(p) && hdr == nil {
+				hdr = b
+			}
+		}
+	}
+	n := 0
+	for _, r := range returnsOf(m) {
+		// the ctx.Done() arm returns unconditionally; look at returns controlled by a data condition
+		for _, ec := range condsDominating(r.Block()) {
+			if hdr == nil || !(hdr == ec.If.Block() || hdr.Dominates(ec.If.Block())) {
+				continue
+			}
+			if _, isSel := selectIndexOf(ec.Cond); isSel {
+				continue
+			}
+			if ex, ok := ec.Cond.(*ssa.Extract); ok {
+				if _, isTA := ex.Tuple.(*ssa.TypeAssert); isTA {
+					continue // the type switch over the event
+				}
+			}
+			n++
+			fresh, stale := false, false
+			seen := map[ssa.Value]bool{}
+			var walk func(v ssa.Value, d int)
+			walk = func(v ssa.Value, d int) {
+				if v == nil || seen[v] || d > 8 {
+					return
+				}
+				seen[v] = true
+				switch x := v.(type) {
+				case *ssa.Phi:
+					if x.Block() == hdr {
+						stale = true
+						return
+					}
+					for _, e := range x.Edges {
+						walk(e, d+1)
+					}
+				case *ssa.Call:
+					if callee := staticCallee(x); callee != nil && readsWatching(callee) {
+						fresh = true
+						return
+					}
+					for _, a := range x.Call.Args {
+						walk(a, d+1)
+					}
+				case *ssa.BinOp:
+					walk(x.X, d+1)
+					walk(x.Y, d+1)
+				case *ssa.UnOp:
+					walk(x.X, d+1)
+				case *ssa.Extract:
+					walk(x.Tuple, d+1)
+				}
+			}
+			walk(ec.Cond, 0)
+			c.check(fresh && !stale, rule, relName(m)+"#exit#"+itoa(n), r.Pos(), "the exit decision comes from a scan of the watching bits made for this event",
+				"the monitor's exit on a Done event depends on state carried across events (or on nothing that reads the slots' watching bits): a source calling Done twice can make it exit while another source is still watching, whose later reports are never stacked")
+		}
+	}
+	if n == 0 {
+		c.bad(rule, relName(m), m.Pos(), "the monitor has no data-dependent exit (it could never stop when all watchers are done)")
+	}
+}
+
+func selectIndexOf(v ssa.Value) (*ssa.Select, bool) {
+	if b, ok := v.(*ssa.BinOp); ok {
+		if ex, ok := b.X.(*ssa.Extract); ok && ex.Index == 0 {
+			if s, ok := ex.Tuple.(*ssa.Select); ok {
+				return s, true
+			}
+		}
+	}
+	return nil, false
+}
